@@ -240,3 +240,13 @@ Definition py_set_val {S} (g : val) : LM S (list val) :=
 (* iterating a list value *)
 Definition val_iter (v : val) : list val := match v with VList l | VTuple l => l | _ => [] end.
 Definition is_str (v : val) : bool := match v with VStr _ => true | _ => false end.
+
+(* ---- SortKey.__lt__ ------------------------------------------------------------------------------------ *)
+(* a < b on cell values: TypeError, or another exception (Record.__lt__ against a non-record) *)
+Definition py_lt_m {S} (a b : val) : LM S bool :=
+  fun s => match py_lt a b with
+           | CTrue => Ok true s | CFalse => Ok false s
+           | CTypeError => Exc TypeErr s | CRaise => Exc OtherErr s
+           end.
+(* isinstance(v, numbers.Number) *)
+Definition is_number (v : val) : bool := match numval v with Some _ => true | None => false end.
